@@ -28,6 +28,7 @@ import Osmium.Lemmas.PbfSize2
 import Osmium.Lemmas.PbfDense3
 import Osmium.Lemmas.PbfBlock
 import Osmium.Lemmas.PbfFile
+import Osmium.Generated.Consts
 
 namespace Osmium.Pbf
 
@@ -357,5 +358,14 @@ example :
   simp only [List.mem_cons, List.not_mem_nil, or_false] at hob
   rcases hob with rfl | rfl | rfl | rfl | rfl <;>
     simp [ObjInDomain, MetaInDomain, IdOk, LocOk, MetaStrOk, WayInDomain, RelInDomain, Location.undefined]
+
+/-- Tie of the model's constants to the CURRENT source: `Generated/Consts.lean` is regenerated from
+    /repo/include on every run (tools/consts.py); the kernel decides the equations. -/
+theorem consts_tie_pbf_writer :
+    maxEntitiesPerBlock = Osmium.Generated.Consts.pbfMaxEntitiesPerBlock ∧
+    Osmium.PbfFraming.maxBlobHeaderSize = Osmium.Generated.Consts.pbfMaxBlobHeaderSize ∧
+    Osmium.PbfFraming.maxUncompressedBlobSize = Osmium.Generated.Consts.pbfMaxUncompressedBlobSize ∧
+    maxOsmStringLength = Osmium.Generated.Consts.maxOsmStringLength ∧
+    Osmium.Generated.Consts.pbfResolutionConvert = 100 ∧ Osmium.Generated.Consts.coordinatePrecision = 10000000 := by decide
 
 end Osmium.Pbf
